@@ -46,6 +46,10 @@ fn main() {
         c12dbg();
         return;
     }
+    if path == "c12dbg4" {
+        c12dbg4();
+        return;
+    }
     if path == "c12dbg3" {
         c12dbg3();
         return;
@@ -318,4 +322,46 @@ fn c12dbg3() {
     for (k, v) in map.iter(&txn) {
         println!("{} = {}", k, v);
     }
+}
+
+
+fn c12dbg4() {
+    use yrs::undo::Options as UOpts;
+    use yrs::{Array, Doc, Map, Options, Transact, ReadTxn};
+    let mut o = Options::with_client_id(yrs::block::ClientID::new(1));
+    o.skip_gc = false;
+    let doc = Doc::with_options(o);
+    let map = doc.get_or_insert_map("map");
+    let arr = doc.get_or_insert_array("arr");
+    let mut uo = UOpts::<()>::default();
+    uo.capture_timeout_millis = 0;
+    let mut mgr = yrs::undo::UndoManager::with_options(uo);
+    mgr.expand_scope(&doc, &map);
+    mgr.expand_scope(&doc, &arr);
+    let show = |what: &str| {
+        let txn = doc.transact();
+        let b: Vec<String> = yrs::verif_hooks::store_blocks(txn.store()).iter().map(|b| format!("{}#{}+{}{:?}{}", b.client.get(), b.clock, b.len, b.kind, if b.deleted { "d" } else { "" })).collect();
+        println!("{}: arr len {} blocks {:?}", what, arr.len(&txn), b);
+    };
+    {
+        let mut txn = doc.transact_mut();
+        map.insert(&mut txn, "k0", 1.0);
+        arr.push_back(&mut txn, 2.0);
+    }
+    mgr.reset();
+    arr.remove(&mut doc.transact_mut(), 0);
+    mgr.reset();
+    arr.insert(&mut doc.transact_mut(), 0, 3.0);
+    mgr.reset();
+    show("before undo 1");
+    println!("undo {}", mgr.undo_blocking());
+    show("after undo 1");
+    mgr.clear_redo();
+    show("after clear_redo");
+    doc.transact_mut().gc(None);
+    show("after gc");
+    println!("undo {}", mgr.undo_blocking());
+    show("after undo 2");
+    println!("undo {}", mgr.undo_blocking());
+    show("after undo 3");
 }
